@@ -567,3 +567,24 @@ Definition world_caps (w : world) : list (option N) :=
 Definition world_snaps (c : cfg) (w : world) : list (option (option (list N))) :=
   map (fun o => match o with Some v => Some (snapshot c v) | None => None end) (wv w).
 Definition world_events (w : world) : list event := rev (ulog (wuw w)).
+
+(** Raw storage, slot by slot up to the capacity (resizable backends, element size >= 2):
+    [None] = bytes that are no whole value, [Some None] = never written, [Some (Some t)] =
+    the (possibly stale) bytes of value [t].  Compared with the real storage, which the
+    harness's allocator / backend poison-fills when fresh. *)
+Definition slot_class (c : cfg) (bs : mem) : option (option N) :=
+  if forallb (fun x => match x with Uninit => true | _ => false end) bs then Some None
+  else match dec (szn c) bs with Some t => Some (Some t) | None => None end.
+Fixpoint slots_raw (c : cfg) (n : nat) (m : mem) : list (option (option N)) :=
+  match n with
+  | O => []
+  | S k => slot_class c (firstn (szn c) m) :: slots_raw c k (skipn (szn c) m)
+  end.
+Definition vec_raw (c : cfg) (v : vec) : option (list (option (option N))) :=
+  match vbk v with
+  | BHeap | BReloc =>
+      if (2 <=? c_sz c) && (vcap v <=? 600) then Some (slots_raw c (N.to_nat (vcap v)) (vmem v)) else None
+  | _ => None
+  end.
+Definition world_raw (c : cfg) (w : world) : list (option (option (list (option (option N))))) :=
+  map (fun o => match o with Some v => Some (vec_raw c v) | None => None end) (wv w).
